@@ -175,7 +175,7 @@ NEXT_POST = ["minv(self)", "wfpos(self)", "pos(self) > old(pos(self))",
              "forall(lambda s: implies(mem(self, s) and s > old(pos(self)), s >= pos(self)))"]
 SKIP_POST = ["minv(self)", "wfpos(self)",
              "implies(id <= old(pos(self)), pos(self) == old(pos(self)))",
-             "implies(id > old(pos(self)), pos(self) >= id and "
+             "implies(id > old(pos(self)), (pos(self) >= id or pos(self) == INF) and "
              "forall(lambda s: implies(mem(self, s) and s >= id, s >= pos(self))))"]
 ACTIVE = "pos(self) < INF"
 
